@@ -567,7 +567,7 @@ func (w *watch) watch(fsw *fsnotify.Watcher, m *sync.Mutex, refresh func() error
 				m.Unlock()
 				return
 			}
-			if event.Op == fsnotify.Remove && w.tracked[event.Name] {
+			if event.Op&(fsnotify.Remove|fsnotify.Rename) != 0 && w.tracked[event.Name] {
 				w.update(dirErrors, event.Name)
 			} else {
 				w.update(dirErrors)
@@ -603,6 +603,8 @@ func (w *watch) update(dirErrors map[string]error, removed ...string) bool {
 	// mark removed directories first, so that one which has already been
 	// recreated gets monitored again right below
 	for _, dir = range removed {
+		// a directory which was renamed away is still being watched
+		_ = w.watcher.Remove(dir)
 		w.tracked[dir] = false
 		dirErrors[dir] = errors.New("directory removed")
 		update = true
